@@ -1,0 +1,11 @@
+// Copyright (C) 2026 Storj Labs, Inc.
+// See LICENSE for copying information.
+
+//go:build !verif
+// +build !verif
+
+package drpcdebug
+
+// Point is a scheduling point used by external verification harnesses. It is
+// a no-op unless built with the verif tag.
+func Point(name string) {}
